@@ -1,4 +1,92 @@
 import TsRsVerif.Model.Deps
+/-!
+# C14 — inline, flatten and `as` change presentation, never meaning
+
+Theorems over the string-level model of the derive. `as = "U"`: the item is processed exactly as if
+the Rust type at that position were `U`. Inline: `inline()` of a type IS the body of its concrete
+declaration. The denotational statements (inline ≈ by name, flatten ≈ merge) are decided on every
+run by the relational oracle of `tools/props/c14.py` (normal-form comparison of the real
+declarations of sibling items, and cross-membership of real JSON), stated partial here.
+-/
 namespace TsRs
-theorem C14_placeholder : True := trivial
+open Text Derive
+
+/-- replace the Rust type of a field by `U` and drop its `as` -/
+def retype (f : Field) (U : RTy) : Field := { f with ty := U, attr := { f.attr with typeAs := none } }
+
+theorem effTy_retype (f : Field) (U : RTy) : effTy (retype f U) = U := rfl
+theorem effTy_as (f : Field) (U : RTy) (h : f.attr.typeAs = some U) : effTy f = U := by simp [effTy, h]
+
+/-- **`as = "U"` on a named field yields exactly the binding the field would have if its Rust type
+were `U`**: the whole field list is formatted identically (names, optional markers, inline/flatten
+handling, docs), for every struct, every attribute combination and every other field. -/
+theorem C14_as_named_field (cfg : Cfg) (env : Env) (fuel : Nat) (σ : List (Str × RTy)) (attr : SAttr)
+    (pre post : List Field) (f : Field) (U : RTy) (h : f.attr.typeAs = some U) :
+    formatFields cfg env fuel σ attr (pre ++ f :: post) = formatFields cfg env fuel σ attr (pre ++ retype f U :: post) := by
+  induction pre generalizing fuel with
+  | nil =>
+    cases fuel with
+    | zero => rfl
+    | succ n => simp only [List.nil_append, formatFields, effTy_retype, effTy_as f U h]; rfl
+  | cons p ps ih =>
+    cases fuel with
+    | zero => rfl
+    | succ n => simp only [List.cons_append, formatFields]; rw [ih n]
+
+/-- the same for the single field of a newtype struct / variant -/
+theorem C14_as_newtype (cfg : Cfg) (env : Env) (fuel : Nat) (σ : List (Str × RTy)) (f : Field) (U : RTy)
+    (h : f.attr.typeAs = some U) :
+    newtypeDef cfg env fuel σ f = newtypeDef cfg env fuel σ (retype f U) := by
+  cases fuel with
+  | zero => rfl
+  | succ n => simp only [newtypeDef, effTy_retype, effTy_as f U h]; rfl
+
+/-- … and for a field of a tuple struct / variant -/
+theorem C14_as_tuple_field (cfg : Cfg) (env : Env) (fuel : Nat) (σ : List (Str × RTy))
+    (pre post : List Field) (f : Field) (U : RTy) (h : f.attr.typeAs = some U) :
+    tupleFields cfg env fuel σ (pre ++ f :: post) = tupleFields cfg env fuel σ (pre ++ retype f U :: post) := by
+  induction pre generalizing fuel with
+  | nil =>
+    cases fuel with
+    | zero => rfl
+    | succ n => simp only [List.nil_append, tupleFields, effTy_retype, effTy_as f U h]; rfl
+  | cons p ps ih =>
+    cases fuel with
+    | zero => rfl
+    | succ n => simp only [List.cons_append, tupleFields]; rw [ih n]
+
+/-- **container-level `as = "U"`**: the item's inline form is `U`'s inline form (at the arguments) -/
+theorem C14_as_container (cfg : Cfg) (env : Env) (fuel : Nat) (σ : List (Str × RTy)) (attr : SAttr) (name : Str)
+    (shape : Shape) (fields : List Field) (U : RTy) (hover : attr.typeOverride = none) (h : attr.typeAs = some U) :
+    typeDef cfg env (fuel + 1) σ attr name shape fields
+      = (inlineS cfg env fuel (RTy.subst σ U)).bind fun s => .ok (s, none) := by
+  simp [typeDef, hover, h, bind, Res.bind, pure]
+
+/-- **the inline form of a type is the body of its own declaration instantiated at its arguments**:
+`inline()` and `decl_concrete()` of `N<args>` are computed from the same `itemDef` at the same
+substitution -/
+theorem C14_inline_is_body (cfg : Cfg) (env : Env) (fuel : Nat) (id : Str) (args : List RTy) (it : Item) (d : TDef)
+    (hit : env.find id = some it) (hd : itemDef cfg env fuel it (bindArgs it args) = .ok d) :
+    inlineS cfg env (fuel + 1) (.named id args) = .ok d.1 ∧
+    declConcreteS cfg env fuel it args = .ok ("type ".toList ++ tsName it ++ " = ".toList ++ d.1 ++ ";".toList) := by
+  constructor
+  · simp [inlineS, hit, hd, bind, Res.bind, pure]
+  · simp [declConcreteS, hd, bind, Res.bind, pure]
+
+/-- an inlined field prints the field type's `inline()`, a plain field its `name()`: the ONLY
+difference between the two presentations of a named field -/
+theorem C14_inline_vs_name (cfg : Cfg) (env : Env) (fuel : Nat) (σ : List (Str × RTy)) (attr : SAttr) (f : Field)
+    (hs : f.attr.skip = false) (ho : f.attr.typeOverride = none) (hf : f.attr.flatten = false)
+    (hopt : f.attr.optional = .no) (hso : attr.optionalFields = .no) (s : Str)
+    (hty : (if f.attr.inline then inlineS cfg env (fuel + 1) (RTy.subst σ (effTy f))
+            else nameS env (RTy.subst σ (effTy f))) = .ok s) :
+    formatFields cfg env (fuel + 2) σ attr [f]
+      = .ok ([fieldDocs f.attr.docs ++ fieldTsName cfg attr.renameAll f ++ ": ".toList ++ s ++ ",".toList], []) := by
+  simp only [formatFields, hs, ho, hf, hopt, hso, bind, Res.bind, pure, Bool.false_eq_true, if_false]
+  cases hi : f.attr.inline
+  · simp only [hi, Bool.false_eq_true, if_false] at hty ⊢
+    simp [hty]
+  · simp only [hi, if_true] at hty ⊢
+    simp [hty]
+
 end TsRs
